@@ -9,13 +9,12 @@ mod fenmon;
 mod itermon;
 mod posmon;
 mod real;
-mod report;
 mod scoremon;
 mod workload;
 
 use posmon::{Oracle, Plan};
 use refmodel::json::J;
-use report::Collector;
+use refmodel::report::{self, Collector};
 
 pub struct Args {
     pub cmd: String,
